@@ -444,6 +444,16 @@ class Run:
             return False
         if type(a) != type(b):
             return False
+        if type(a).__name__ == "SNd":
+            if a is b:
+                return True
+            if a.shape is None or b.shape is None or len(a.shape) != len(b.shape):
+                raise Unsupported("equality of arrays of unknown dimension")
+            self.fresh_n += 1
+            idx = [z3.Int("i!eq%d_%d" % (self.fresh_n, k)) for k in range(len(a.shape))]
+            rng = z3.And(*[z3.And(i >= 0, i < b2i(z(d))) for i, d in zip(idx, a.shape)])
+            same = zbool(self.eq(a.elem(tuple(idx)), b.elem(tuple(idx))))
+            return AND(*([cmp("==", x, y) for x, y in zip(a.shape, b.shape)] + [z3.ForAll(idx, z3.Implies(rng, same))]))
         raise Unsupported("equality of %r and %r" % (a, b))
 
     def seq_eq(self, a, b):
